@@ -279,7 +279,13 @@ pub fn run_c16(seed: u64, run: u64, stats: &mut Stats) -> Vec<Violation> {
             };
             let vd = fnv64(&r.e);
             stats.add(&format!("c16.values.write_to_slice.{}", kind.name()), 1);
-            for len in 0..=r.e.len() + 1 {
+            // every length 0..=|E|+1, plus some roomier slices (minimum frame
+            // sizes, MTU, powers of two) whose rest must stay untouched
+            let mut lens: Vec<usize> = (0..=r.e.len() + 1).collect();
+            for extra in [2usize, 8, 46, 50, 64, 128, 256, 1500, 2048] {
+                lens.push(r.e.len() + extra);
+            }
+            for len in lens {
                 l.exec += 1;
                 match traced(|| mk(len), || check_write_slice(kind, &v, &r, len)) {
                     Ok(o) => {
@@ -369,6 +375,9 @@ pub fn run_c16(seed: u64, run: u64, stats: &mut Stats) -> Vec<Violation> {
             // positions for very large packets)
             let mut lens = positions.clone();
             lens.push(r.e.len() + 1);
+            for extra in [2usize, 8, 46, 64, 256, 1500] {
+                lens.push(r.e.len() + extra);
+            }
             for len in lens {
                 l.exec += 1;
                 match traced(|| mk(Sink::Slice(len)), || check_build(&spec, &r, &Sink::Slice(len))) {
